@@ -138,6 +138,16 @@ CLAIMS = [
      "note": "interval reasoning only (the bound checked is never tighter than the real one; 10 millitoken slack for f64 rounding); server rows copy the server's "
              "derivation of limiter parameters; the refund-after-refill defect found by this check was repaired by a fix: commit",
      "ref": "DESIGN.md section 6 (C19)"},
+    {"id": "C12",
+     "technique": "TLC model check of Backup.tla (S2) + TLC-generated histories with backups and retention timelines replayed with the real BackupManager / RestoreManager + strict recovery of every restored directory -> TLC trace validation (BackupTrace.tla)",
+     "text": "Backup.tla models full / incremental backups, chains, PIT, pruning and restores over the storage state and TLC checks RestoreExact, "
+             "PITExact, PruneKeepsAncestors, NoClearWithoutConfirm, AlteredRejectedBeforeTouch (the code's former deviations are kept as expected "
+             "counterexamples); the same module and BackupTimeline.tla generate histories and retention timelines that backuplab replays on the real "
+             "engine: every backup is restored (by id, chain, PIT) and strictly recovered in a child process, every archive / metadata file is altered "
+             "at every structural offset and restored into a non-empty target with and without confirmation; BackupTrace.tla (TLC) judges.",
+     "note": "2 ids, <= 5 backups per history, one fault per trial, quiescent single-threaded backups; same-second full backups are an assumption; "
+             "three defects found by this check were repaired by fix: commits",
+     "ref": "DESIGN.md section D / notes/C12.md"},
 ]
 
 _PENDING = "not yet covered by the specification suite in this revision (see DESIGN.md section 11 for the construction order)"
